@@ -443,3 +443,6 @@ class AdaptivePolicy:
         if self._current_rate < old_rate:
             self.rate_decreases += 1
             self.rate_history.append(RateSnapshot(time=now, rate=self._current_rate, reason=reason))
+            # The bucket shrinks with the rate: tokens saved up at the higher
+            # rate must not be spendable as a burst above the new bucket size.
+            self._tokens = min(self._tokens, self._current_rate * self._window_size)
